@@ -61,6 +61,18 @@ sse_rule_loadpX (OrcCompiler *compiler, void *user, OrcInstruction *insn)
       orc_x86_emit_mov_memoffset_sse (compiler, 4,
           (int)ORC_STRUCT_OFFSET(OrcExecutor, params[insn->src_args[0]]),
           compiler->exec_reg, reg, FALSE);
+      if (size == 8) {
+        /* a parameter narrower than the 64-bit operation that uses it is
+         * sign-extended, as the emulator and the C backend do */
+        orc_sse_emit_psrad_imm (compiler, 31, reg);
+        orc_sse_emit_psllq_imm (compiler, 32, reg);
+        orc_sse_emit_pinsrw_memoffset (compiler, 0,
+            (int)ORC_STRUCT_OFFSET(OrcExecutor, params[insn->src_args[0]]) + 0,
+            compiler->exec_reg, reg);
+        orc_sse_emit_pinsrw_memoffset (compiler, 1,
+            (int)ORC_STRUCT_OFFSET(OrcExecutor, params[insn->src_args[0]]) + 2,
+            compiler->exec_reg, reg);
+      }
       if (size < 8) {
         if (size == 1) {
           orc_sse_emit_punpcklbw (compiler, reg, reg);
